@@ -2,6 +2,7 @@ import HpxVerif.Model.Ring
 import HpxVerif.Lemmas.NumReal
 import HpxVerif.Lemmas.RingReal4
 import HpxVerif.Lemmas.SqrtApprox4
+import HpxVerif.Lemmas.RingSeams3
 
 set_option autoImplicit false   -- an unknown identifier in a statement is an error, never a new variable
 
@@ -209,5 +210,164 @@ end RingPlane
     `f64` estimate followed by the integer correction loops is the exact polar ring index (from the accuracy theorem of
     the square-root estimate, C10 `sqrt_estimate_accuracy`) -/
 theorem ring_index_exact (n : Nat) (hn : n ≤ 2 ^ 29) : Hpx.RingReal.RingIndexExact n := Hpx.SqrtApprox.ringIndexExact n hn
+
+
+/-! ## unconditional statements (the polar ring index is exact for every `nside < 2^30`: the accuracy of the `f64` square
+root is proved on the whole `u64` range) and the EXACT failure set on the whole sphere (finding F3)
+
+`F3Set n lon lat`: the four meridians `lon = k·π/2` of the north cap, from the transition latitude (inclusive) up to, but
+excluding, the last ring; empty for `nside = 1`.  `ring_hash_correct_iff`: `ring::hash` returns a cell containing the
+point IF AND ONLY IF the position is not in `F3Set` - on `lon = 0` the dev profile panics, on the three other meridians both
+profiles silently return a cell of the neighbouring base cell that misses the point; the south cap, both poles and the
+last ring are correct (`ring_hash_seam_south`, `ring_hash_south_pole`).  `ring_hash_seam_north_spec` gives the behaviour
+on both edges of every north triangle in the plane (the east edges are reached from negative longitudes only). -/
+
+section Unconditional
+open Hpx Hpx.Ring Hpx.Proj Hpx.RingReal Hpx.RingSeams Hpx.Layer Hpx.SqrtApprox Real
+
+/-- **T1**: the polar ring index computed by the code (`f64` square-root estimate + integer correction loops) is the
+    exact one below `tri4 n`, for every `1 ≤ n < 2^30` (power of two or not) — the hypothesis `hRI` of the theorems of
+    `Props/C11.lean`, on their whole range -/
+theorem ring_index_exact_holds (n : Nat) (_hn : 1 ≤ n) (hn' : n < 2 ^ 30) : RingIndexExact n :=
+  Hpx.RingSeams.ringIndexExact_holds n _hn hn'
+
+/-- **`⌊√y⌋ − 1 ≤ isqrtF64 y ≤ ⌊√y⌋ + 2` for every `0 < y < 2^64`** (the whole `u64` range; `SqrtApprox.isqrtF64_sharp`
+    has the sharp bound below `2^61`) -/
+theorem isqrtF64_bounds64 (y : Nat) (h0 : 0 < y) (hy : y < 2 ^ 64) :
+    y.sqrt ≤ isqrtF64 y + 1 ∧ isqrtF64 y ≤ y.sqrt + 2 :=
+  Hpx.RingSeams.isqrtF64_bounds64 y h0 hy
+
+theorem ring_hash_center_uncond (debug : Bool) {n : Nat} (hn : 1 ≤ n) (hN : n < 2 ^ 30)
+    (h : Nat) (hh : h < 12 * n * n) :
+    ∃ cx cy dl dh : ℝ, centerOfProjectedCell (α := ℝ) debug n h = some (cx, cy) ∧
+      hashPlane debug n cx cy = some (h, dl, dh) ∧ ((dl, dh) = (1 / 2, 0) ∨ (dl, dh) = (0, 1 / 2)) ∧
+      dldhToDxDy dl dh = (1 / 2, 1 / 2) :=
+  Hpx.RingSeams.ring_hash_center_uncond debug hn hN h hh
+
+theorem ring_hash_contains_partial_uncond (debug : Bool) {n : Nat} (hn : 1 ≤ n) (hN : n < 2 ^ 30)
+    {X Y : ℝ} (hg : GoodPoint X Y) :
+    ∃ (h : ℕ) (dl dh cx cy : ℝ), hashPlane debug n X Y = some (h, dl, dh) ∧ h < 12 * n * n ∧
+      0 ≤ dl ∧ dl < 1 ∧ 0 ≤ dh ∧ dh < 1 ∧ centerOfProjectedCell (α := ℝ) debug n h = some (cx, cy) ∧
+      (|X - cx| + |Y - cy| ≤ 1 / n ∨ |X - 8 - cx| + |Y - cy| ≤ 1 / n) :=
+  Hpx.RingSeams.ring_hash_contains_partial_uncond debug hn hN hg
+
+theorem ring_sph_coo_inverts_uncond (debug : Bool) {n : Nat} (hn : 1 ≤ n) (hN : n < 2 ^ 30)
+    {X Y : ℝ} (hg : GoodPoint X Y) (h : ℕ) (dx dy : ℝ) (hh : hashPlaneDxDy debug n X Y = some (h, dx, dy)) :
+    sphCoo debug n h dx dy = unproj X Y ∧ 0 ≤ dx ∧ dx < 1 ∧ 0 ≤ dy ∧ dy < 1 :=
+  Hpx.RingSeams.ring_sph_coo_inverts_uncond debug hn hN hg h dx dy hh
+
+theorem ring_hash_sphere_partial_uncond (debug : Bool) {n : Nat} (hn : 1 ≤ n) (hN : n < 2 ^ 30)
+    (lon lat : ℝ) (hlon0 : 0 ≤ lon) (hlon1 : lon < 2 * π) (hlat0 : -(π / 2) ≤ lat) (hlat1 : lat ≤ π / 2)
+    (hseam : lat < Real.arcsin (2 / 3) ∨ (lat < π / 2 ∧ ∀ k : ℕ, lon ≠ k * (π / 2))) :
+    ∃ (X Y : ℝ) (h : ℕ) (cx cy : ℝ), proj (α := ℝ) lon lat = some (X, Y) ∧ Ring.hash debug n lon lat = some h ∧
+      h < 12 * n * n ∧ centerOfProjectedCell (α := ℝ) debug n h = some (cx, cy) ∧
+      (|X - cx| + |Y - cy| ≤ 1 / n ∨ |X - 8 - cx| + |Y - cy| ≤ 1 / n) :=
+  Hpx.RingSeams.ring_hash_sphere_partial_uncond debug hn hN lon lat hlon0 hlon1 hlat0 hlat1 hseam
+
+theorem ring_sph_coo_roundtrip_north_uncond (debug : Bool) {n : Nat} (hn : 1 ≤ n) (hN : n < 2 ^ 30)
+    (lon lat : ℝ) (hlon0 : 0 ≤ lon) (hlon1 : lon < 2 * π) (hlat0 : 0 ≤ lat) (hlat1 : lat ≤ π / 2)
+    (hpole : (Num.epsPole : ℝ) < Real.sqrt 6 * Real.cos (1 / 2 * lat + π / 4))
+    (hseam : lat < Real.arcsin (2 / 3) ∨ (lat < π / 2 ∧ ∀ k : ℕ, lon ≠ k * (π / 2))) :
+    ∃ (h : ℕ) (dx dy : ℝ), hashWithDxDy debug n lon lat = some (h, dx, dy) ∧ sphCoo debug n h dx dy = some (lon, lat) :=
+  Hpx.RingSeams.ring_sph_coo_roundtrip_north_uncond debug hn hN lon lat hlon0 hlon1 hlat0 hlat1 hpole hseam
+
+theorem ring_order_uncond (debug : Bool) {n : Nat} (hn : 1 ≤ n) (hN : n < 2 ^ 30)
+    (h h' : Nat) (hlt : h < h') (hh' : h' < 12 * n * n) :
+    ∃ cx cy cx' cy' : ℝ, centerOfProjectedCell (α := ℝ) debug n h = some (cx, cy) ∧
+      centerOfProjectedCell (α := ℝ) debug n h' = some (cx', cy') ∧ (cy' < cy ∨ (cy' = cy ∧ cx < cx')) :=
+  Hpx.RingSeams.ring_order_uncond debug hn hN h h' hlt hh'
+
+theorem ring_center_plane_uncond (debug : Bool) {n : Nat} (hn : 1 ≤ n) (hN : n < 2 ^ 30)
+    (h : Nat) (hh : h < 12 * n * n) :
+    ∃ r i, r < 4 * n - 1 ∧ i < 4 * perFacet n r ∧ h = ringStart n r + i ∧
+      centerOfProjectedCell (α := ℝ) debug n h = some ((cxI n r i : ℝ) / n, (cyI n r : ℝ) / n) ∧
+      0 ≤ (cxI n r i : ℝ) / n ∧ (cxI n r i : ℝ) / n < 8 ∧ -2 < (cyI n r : ℝ) / n ∧ (cyI n r : ℝ) / n < 2 ∧
+      (cyI n r : ℝ) / n * n = ((2 * (n : ℤ) - 1 - r : ℤ) : ℝ) :=
+  Hpx.RingSeams.ring_center_plane_uncond debug hn hN h hh
+
+/-- **`ring_hash_seam_north_spec`** — the exact behaviour of the plane part of `ring::hash` on the two slanted edges of
+    the north Collignon triangle `q` (`q = 0..3`, `1 ≤ y < 2`), for every `1 ≤ nside = n < 2^30`, in the dev profile
+    (`debug = true`, `none` = panic) and in the release profile:
+
+    WEST edge `x = 2q + (y − 1)` (on the sphere: `lon = q·π/2`):
+    * last ring, `2 − 1/n ≤ y` (the whole edge when `n = 1`): cell `q`, offsets `(1,1)`, both profiles — CORRECT;
+    * below, `q = 0`: dev profile PANICS; release returns a WRONG answer (`2^64 − 1` or a cell that misses the point);
+    * below, `q ≥ 1`: both profiles return, silently, a WRONG cell (the last cell of facet `q − 1` of the ring).
+    EAST edge `x = 2q + 2 − (y − 1)`, `1 < y` (on the sphere: `lon = −(3−q)·π/2`, not reached from `lon ∈ [0, 2π)`; at
+    `y = 1` the point is the west-edge point of facet `q + 1`):
+    * last ring, `n ≥ 2`: cell `q`, offsets `(1,1)`, both profiles — CORRECT;
+    * `n = 1`: cell `q + 1` (4 for `q = 3`), both profiles — WRONG;
+    * below the last ring: both profiles return, silently, a WRONG cell. -/
+theorem ring_hash_seam_north_spec {n q : ℕ} (hn : 1 ≤ n) (hN : n < 2 ^ 30) (hq : q < 4) {Y : ℝ} (h1 : 1 ≤ Y) (h2 : Y < 2) :
+    -- west edge
+    ((2 * (n : ℝ) - 1 ≤ n * Y → ∀ debug, hashPlane debug n (2 * q + (Y - 1)) Y = some (q, 1, 1) ∧
+        Contains debug n q (2 * q + (Y - 1)) Y) ∧
+     ((n : ℝ) * Y < 2 * n - 1 → q = 0 → hashPlane true n (2 * q + (Y - 1)) Y = none ∧
+        ∃ (h : ℕ) (dl dh : ℝ), hashPlane false n (2 * q + (Y - 1)) Y = some (h, dl, dh) ∧
+          Misses false n h (2 * q + (Y - 1)) Y) ∧
+     ((n : ℝ) * Y < 2 * n - 1 → 1 ≤ q → ∀ debug, ∃ (h : ℕ) (dl dh : ℝ),
+        hashPlane debug n (2 * q + (Y - 1)) Y = some (h, dl, dh) ∧ h < 12 * n * n ∧
+          Misses debug n h (2 * q + (Y - 1)) Y)) ∧
+    -- east edge
+    (1 < Y →
+     (2 * (n : ℝ) - 1 ≤ n * Y → 2 ≤ n → ∀ debug, hashPlane debug n (2 * q + 2 - (Y - 1)) Y = some (q, 1, 1) ∧
+        Contains debug n q (2 * q + 2 - (Y - 1)) Y) ∧
+     (n = 1 → ∀ debug, hashPlane debug n (2 * q + 2 - (Y - 1)) Y = some (q + 1, 1, 1) ∧
+        Misses debug n (q + 1) (2 * q + 2 - (Y - 1)) Y) ∧
+     ((n : ℝ) * Y < 2 * n - 1 → ∀ debug, ∃ (h : ℕ) (dl dh : ℝ),
+        hashPlane debug n (2 * q + 2 - (Y - 1)) Y = some (h, dl, dh) ∧ h < 12 * n * n ∧
+          Misses debug n h (2 * q + 2 - (Y - 1)) Y)) :=
+  Hpx.RingSeams.ring_hash_seam_north_spec hn hN hq h1 h2
+
+/-- **south-cap seams**: on the two slanted edges of the south triangle `q` (`|x − (2q+1)| = 2 + y`, `−2 ≤ y < −1`, the
+    south pole included) `hash_with_dldh` returns, in both profiles, a cell whose closed diamond contains the point
+    (a diamond owns its two southern edges, and the seams are southern edges of cells of the triangle) -/
+theorem ring_hash_seam_south (debug : Bool) {n q : ℕ} (hn : 1 ≤ n) (hN : n < 2 ^ 30) (hq : q < 4) {X Y : ℝ}
+    (h1 : -2 ≤ Y) (h2 : Y < -1) (hX : X = 2 * q + 1 - (2 + Y) ∨ X = 2 * q + 1 + (2 + Y)) :
+    ∃ (h : ℕ) (dl dh : ℝ), hashPlane debug n X Y = some (h, dl, dh) ∧ 0 ≤ dl ∧ dl < 1 ∧ 0 ≤ dh ∧ dh < 1 ∧
+      Contains debug n h X Y :=
+  Hpx.RingSeams.ring_hash_seam_south debug hn hN hq h1 h2 hX
+
+/-- **the south pole** of facet `q` (plane point `(2q+1, −2)`): `hash_with_dldh` returns, in both profiles, cell
+    `12n² − 4 + q` of the last ring — the right one (the pole is its south vertex), with regular offsets in `[0,1)²`
+    (unlike the north pole, `ring_hash_pole`, which takes a special exit with offsets `(1,1)`) -/
+theorem ring_hash_south_pole (debug : Bool) {n q : ℕ} (hn : 1 ≤ n) (hN : n < 2 ^ 30) (hq : q < 4) :
+    ∃ dl dh : ℝ, hashPlane debug n ((2 * q + 1 : ℕ) : ℝ) (-2) = some (12 * n * n - 4 + q, dl, dh) ∧
+      0 ≤ dl ∧ dl < 1 ∧ 0 ≤ dh ∧ dh < 1 ∧ dldhToDxDy dl dh = (0, 0) ∧
+      Contains debug n (12 * n * n - 4 + q) ((2 * q + 1 : ℕ) : ℝ) (-2) :=
+  Hpx.RingSeams.ring_hash_south_pole debug hn hN hq
+
+/-- **`ring_hash_sphere_total`** — `ring::hash` on the WHOLE sphere, for every `1 ≤ nside = n < 2^30` (power of two or
+    not), every `0 ≤ lon < 2π`, every latitude, in both profiles: EITHER the point is in the explicit failure set
+    `F3Set n lon lat` (where the answer is wrong, `ring_hash_f3_wrong`), OR `ring::hash` returns a cell `h < 12 n²` whose
+    closed diamond contains the projected point (the conclusion of `ring_hash_sphere_partial`).  With respect to
+    `ring_hash_sphere_partial` this adds: the north pole, and the part of the four seams that lies in the last ring. -/
+theorem ring_hash_sphere_total (debug : Bool) {n : ℕ} (hn : 1 ≤ n) (hN : n < 2 ^ 30)
+    (lon lat : ℝ) (hlon0 : 0 ≤ lon) (hlon1 : lon < 2 * π) (hlat0 : -(π / 2) ≤ lat) (hlat1 : lat ≤ π / 2) :
+    F3Set n lon lat ∨ HashCorrect debug n lon lat :=
+  Hpx.RingSeams.ring_hash_sphere_total debug hn hN lon lat hlon0 hlon1 hlat0 hlat1
+
+/-- **the failure set is exact** (not an over-approximation): on every point of `F3Set`, for every `1 ≤ n < 2^30`,
+    `ring::hash` gives a wrong answer in BOTH profiles; on the meridian `lon = 0` the dev profile panics (and the release
+    profile returns `2^64 − 1` or a far cell), on the three others both profiles silently return a cell of the
+    neighbouring base cell that does not contain the point -/
+theorem ring_hash_f3_wrong {n : ℕ} (hn : 1 ≤ n) (hN : n < 2 ^ 30) {lon lat : ℝ} (hf : F3Set n lon lat) :
+    (lon = 0 → Ring.hash true n lon lat = none) ∧ (lon ≠ 0 → ∃ h, Ring.hash true n lon lat = some h ∧ h < 12 * n * n) ∧
+    ∀ debug, HashWrong debug n lon lat :=
+  Hpx.RingSeams.ring_hash_f3_wrong hn hN hf
+
+/-- the dichotomy is exclusive: **`ring::hash` is correct at `(lon, lat)` if and only if the point is not in `F3Set`** -/
+theorem ring_hash_correct_iff (debug : Bool) {n : ℕ} (hn : 1 ≤ n) (hN : n < 2 ^ 30)
+    (lon lat : ℝ) (hlon0 : 0 ≤ lon) (hlon1 : lon < 2 * π) (hlat0 : -(π / 2) ≤ lat) (hlat1 : lat ≤ π / 2) :
+    HashCorrect debug n lon lat ↔ ¬ F3Set n lon lat :=
+  Hpx.RingSeams.ring_hash_correct_iff debug hn hN lon lat hlon0 hlon1 hlat0 hlat1
+
+/-- for `nside = 1` `ring::hash` is correct on the whole sphere (`0 ≤ lon < 2π`) -/
+theorem ring_hash_sphere_nside_one (debug : Bool) (lon lat : ℝ) (hlon0 : 0 ≤ lon) (hlon1 : lon < 2 * π)
+    (hlat0 : -(π / 2) ≤ lat) (hlat1 : lat ≤ π / 2) : HashCorrect debug 1 lon lat :=
+  Hpx.RingSeams.ring_hash_sphere_nside_one debug lon lat hlon0 hlon1 hlat0 hlat1
+
+
+end Unconditional
 
 end Hpx.C11
